@@ -27,7 +27,7 @@ def run(ck):
     ck.rule("C16.R2", "one elected rotator; rotate iff now >= next_date; same steps on both write paths", floor=5)
     ck.rule("C16.R3", "log files are opened with append+create and never truncated", floor=1)
     ck.rule("C16.R5", "rolling::Builder methods keep every other option (same-named field carry-over)", floor=4)
-    ck.rule("C16.R4", "prune only before creating the next file, oldest first, only the appender's files", floor=3)
+    ck.rule("C16.R4", "prune only before creating the next file, oldest first, only the appender's files", floor=4)
     r1(ck, F)
     r2(ck, F)
     r3(ck, F)
@@ -303,5 +303,28 @@ def r4(ck, F):
                 ck.ok("C16.R4", "candidates: regular files matching the appender's prefix/suffix", fn=fc[0].path)
             else:
                 ck.bad("C16.R4", "candidates: regular files matching the appender's prefix/suffix", where(fc[0].raw["sp"]), "filter uses %s" % used, fn=fc[0].path)
+            # ... and *both* constraints bind every candidate: on each accepting path, a configured prefix was matched with
+            # starts_with and a configured suffix with ends_with (a second appender sharing the prefix keeps its files)
+            from rulekit.query import option_test
+            problems = set()
+            nacc = 0
+            for p in PathEval(fc[0]).run():
+                if p.end != "return" or not show(p.ret).startswith("Option::Some"):
+                    continue
+                nacc += 1
+                for field, test in (("log_filename_prefix", "starts_with"), ("log_filename_suffix", "ends_with")):
+                    states = [option_test(c)[1] for c in p.conds if field in show(c[0]) and option_test(c)[0] is not None]
+                    matched = any(show(c[0]).startswith(test + "(") and c[1] != 0 for c in p.conds)
+                    if True in states and False in states:
+                        continue        # infeasible: the evaluator does not relate `if let Some(..)` to a later `.is_none()`
+                    if not states:
+                        problems.add("a file is accepted on a path that never looks at %s" % field)
+                    elif any(st is True for st in states) and not matched:
+                        problems.add("a file is accepted although %s is set and %s was not required" % (field, test))
+            key = "candidates: a configured prefix and a configured suffix must both match"
+            if nacc and not problems:
+                ck.ok("C16.R4", key, fn=fc[0].path, detail=nacc)
+            else:
+                ck.bad("C16.R4", key, where(fc[0].raw["sp"]), "; ".join(sorted(problems)) or "no accepting path found", fn=fc[0].path)
         else:
             ck.bad("C16.R4", "candidates: regular files matching the appender's prefix/suffix", where(pb.raw["sp"]), "no is_file() test among the candidates filter")
